@@ -38,6 +38,7 @@ def observe(nodes, lab, params):
             "leaves": [lab(x) for x in n.leaves], "size": n.size, "height": n.height,
             "iter_path_reverse": [lab(x) for x in n.iter_path_reverse()],
             "left": None if left is None else lab(left), "right": None if right is None else lab(right),
+            "ca1": [lab(x) for x in autil.commonancestors(n)],
             "pre": [lab(x) for x in PreOrderIter(n, filter_=F, stop=S, maxlevel=m)],
             "post": [lab(x) for x in PostOrderIter(n, filter_=F, stop=S, maxlevel=m)],
             "level": [lab(x) for x in LevelOrderIter(n, filter_=F, stop=S, maxlevel=m)],
@@ -48,6 +49,7 @@ def observe(nodes, lab, params):
             "render": [[pre, fill, lab(x)] for pre, fill, x in RenderTree(n, style=AsciiStyle(), maxlevel=m)],
         }
         out[str(i)] = o
+    out["ca0"] = [lab(x) for x in autil.commonancestors()]
     w = Walker()
     pairs = params.get("pairs", [])
     out["walk"] = []
